@@ -450,9 +450,18 @@ def main(argv=None):
     if len(total.nontrivial) < max(2, minimum):
         inconclusive.append(f'only {len(total.nontrivial)} distinct '
                             f'non-trivial cases (minimum {minimum})')
-    for anchor, (done, tot, miss) in total.reach.items():
-        if done == 0:
-            inconclusive.append(f'anchor {anchor} was never executed')
+    # Reach: a single anchor that is not executed (e.g. a private helper a
+    # refactoring removed or no longer uses) is reported in the evidence but
+    # does not invalidate a run whose monitors observed the behaviour through
+    # the public API; a run that reached NONE of its anchors observed nothing.
+    unreached = [a for a, (done, tot, miss) in total.reach.items()
+                 if done == 0]
+    if total.reach and len(unreached) == len(total.reach):
+        inconclusive.append('none of the anchor functions was executed: '
+                            + ', '.join(unreached))
+    for anchor in unreached:
+        print(f'note: anchor {anchor} not executed (renamed, removed or '
+              'unused in this tree)')
     for key, least in getattr(mod, 'MIN_STATS', {}).items():
         if total.stats.get(key, 0) < least:
             inconclusive.append(f'monitor counter {key}='
